@@ -799,3 +799,96 @@ Theorem joint_overwrite (d1 : list (K * R)) (d2 : list (K2 * R)) k :
 Proof. apply (dget_of_pairs peq pair_eqb_spec). Qed.
 
 End Ops2.
+
+(* ================================================================================== *)
+(* the provided kinds                                                                   *)
+(* ================================================================================== *)
+Section Kinds.
+Context {K : Type} (keq : K -> K -> bool).
+Hypothesis keq_spec : forall a b, keq a b = true <-> a = b.
+Notation distR := (list (K * R)).
+Notation probR := (@prob R NumR K keq).
+Notation massR := (@mass R NumR K).
+Notation kindR := (@kind R K).
+
+Lemma prob_tabulate (P : K -> R) es x :
+  probR (map (fun e => (e, P e)) es) x = if memk keq x es then P x else 0.
+Proof. unfold prob. rewrite (dget_tabulate keq keq_spec). destruct (memk keq x es); reflexivity. Qed.
+
+Lemma kindex_none e (dom : list K) : memk keq e dom = false -> kindex keq e dom = None.
+Proof.
+  induction dom as [|x r IH]; simpl; [reflexivity|].
+  destruct (keq e x); simpl; [discriminate|]. intros H. now rewrite IH.
+Qed.
+
+(* every kind's own prob method is the lookup in its items() *)
+Theorem kinds_agree (k : kindR) e : @kprob R NumR K keq k e = probR (@items R NumR K keq k) e.
+Proof.
+  destruct k as [l|l|s|v|dom data]; cbn [kprob items]; try reflexivity.
+  - rewrite prob_tabulate. unfold uprob. destruct (memk keq e s); reflexivity.
+  - unfold detprob, prob. cbn [dget fst snd]. destruct (keq e v); reflexivity.
+  - rewrite prob_tabulate. destruct (memk keq e dom) eqn:E; [reflexivity|].
+    unfold tprob. now rewrite kindex_none.
+Qed.
+
+Lemma nofnat_pos n : (0 < n)%nat -> 0 < @nofnat R NumR n.
+Proof. intros H. rewrite nofnat_R. now apply lt_0_INR. Qed.
+Lemma uprob_in s e : In e s -> @uprob R NumR K keq s e = 1 / INR (length s).
+Proof.
+  intros H. unfold uprob. apply (memk_In keq keq_spec) in H. rewrite H.
+  rewrite n1_R, ndiv_R, nofnat_R; [reflexivity|].
+  rewrite nofnat_R. apply not_0_INR. destruct s; simpl in *; [discriminate|lia].
+Qed.
+Lemma uprob_pos s e : In e s -> 0 < @uprob R NumR K keq s e.
+Proof.
+  intros H. rewrite uprob_in by assumption. apply Rdiv_lt_0_compat; [lra|].
+  apply lt_0_INR. destruct s; simpl in *; [contradiction|lia].
+Qed.
+Theorem uniform_mass s : s <> [] -> massR (@items R NumR K keq (KUniform s)) = 1.
+Proof.
+  intros H. cbn [items]. rewrite mass_R, map_map. cbn [snd].
+  rewrite (Rsum_map_ext_in _ (fun _ => 1 / INR (length s))) by (intros; now apply uprob_in).
+  rewrite Rsum_map_const. field. apply not_0_INR. destruct s; simpl; [congruence|lia].
+Qed.
+(* the same measure written as a uniform, a deterministic, a dict or a table distribution has the
+   same items(), hence the same result under EVERY operation (all operations are functions of items) *)
+Theorem uniform_singleton_is_det v :
+  @items R NumR K keq (KUniform [v]) = @items R NumR K keq (KDet v).
+Proof.
+  cbn [items map]. rewrite uprob_in by (now left). simpl. f_equal. f_equal. lra.
+Qed.
+Theorem uniform_is_dict s :
+  NoDup s ->
+  @items R NumR K keq (KUniform s) =
+  @items R NumR K keq (KDict (map (fun e => (e, 1 / INR (length s))) s)).
+Proof.
+  intros H. cbn [items]. rewrite (of_pairs_nodup keq keq_spec).
+  - apply map_ext_in. intros e He. now rewrite uprob_in.
+  - rewrite map_map. simpl. now rewrite map_id.
+Qed.
+Lemma tprob_cons_other x (dom : list K) v data e :
+  e <> x -> @tprob R NumR K keq (x :: dom) (v :: data) e = @tprob R NumR K keq dom data e.
+Proof.
+  intros H. unfold tprob. cbn [kindex]. rewrite (keq_neq keq keq_spec) by assumption.
+  destruct (kindex keq e dom); reflexivity.
+Qed.
+Lemma map_fst_combine_eq {A B} (l : list A) (l' : list B) :
+  length l' = length l -> map fst (combine l l') = l.
+Proof.
+  revert l'; induction l as [|a r IH]; intros [|b r'] H; simpl in *; try reflexivity; try discriminate.
+  f_equal. apply IH. lia.
+Qed.
+Theorem table_is_dict dom data :
+  NoDup dom -> length data = length dom ->
+  @items R NumR K keq (KTable dom data) = @items R NumR K keq (KDict (combine dom data)).
+Proof.
+  intros Hnd Hlen. cbn [items]. rewrite (of_pairs_nodup keq keq_spec).
+  2:{ rewrite map_fst_combine_eq; [exact Hnd|exact Hlen]. }
+  revert data Hlen. induction Hnd as [|x dom Hni Hnd IH]; intros data Hlen; [reflexivity|].
+  destruct data as [|v data]; [discriminate|]. cbn [map combine]. f_equal.
+  - f_equal. unfold tprob. cbn [kindex]. now rewrite (keq_refl keq keq_spec).
+  - rewrite <- IH by (simpl in Hlen; lia). apply map_ext_in. intros e He.
+    f_equal. apply tprob_cons_other. intros ->. contradiction.
+Qed.
+
+End Kinds.
